@@ -44,7 +44,7 @@ type C08TableCase struct {
 
 // c08Table enumerates the table; returns the first mismatch.
 func c08Table(st *Stats) (*Failure, int) {
-	anns := []*string{nil, sp(world.OurClass), sp("nginx")}
+	anns := []*string{nil, sp(world.OurClass), sp("nginx"), sp("")}
 	// "next", "sub" and "short" belong to controllers whose name extends, or is extended by, ours
 	classes := []*string{nil, sp(world.OurClass), sp("other"), sp("dangling"), sp("next"), sp("sub"), sp("short")}
 	rows := 0
